@@ -1,7 +1,7 @@
 """Interpreter for attribute-supplying programs, run against the live library and the
 reference model side by side (used by C03 and C15).
 
-case = {"name": tag name, "via": "fn"|"Tag", "ctor": {"args": [arg...], "kw": [[raw, val]...]},
+case = {"name": tag name, "via": "fn"|"Tag"|"consolidate", "ctor": {"args": [arg...], "kw": [[raw, val]...]},
         "ops": [op...], "children": bool}
 arg  = {"d": [[raw, val], ...]}            positional attribute dict
 op   = {"op":"update","args":[...],"kw":[...]} | {"op":"setitem","name":raw,"v":val}
@@ -81,8 +81,12 @@ def run_case(case, step_hook=None):
     kw = _dup_free(c.get("kw", []))
     pos = [_d(d, a.get("as", "dict")) for d, a in zip(dicts, c.get("args", []))]
     kids = ["kid"] if case.get("children") else []
-    f = tag_function(name) if case.get("via", "fn") == "fn" else None
-    if f is not None:
+    f = tag_function(name) if case.get("via", "fn") in ("fn", "consolidate") else None
+    if case.get("via") == "consolidate":
+        # the way component libraries split their arguments: consolidate_attrs() first, the element from its results
+        attrs_, kids_ = ht.consolidate_attrs(*pos, *kids, **_d(kw))
+        tag = f(attrs_, *kids_) if f is not None else ht.Tag(name, attrs_, *kids_)
+    elif f is not None:
         tag = f(*pos, *kids, **_d(kw))
     else:
         tag = ht.Tag(name, *pos, *kids, **_d(kw))
